@@ -8,8 +8,9 @@ Objects (`Obj`) are what `assign` can be given and what it meets while descendin
              `as_signed()` operator over such a slice (signed member; *not* an "explicit shape" for
              `has_explicit_shape`, assign.py:204-205);
 * `int`    – a Python constant: an integer (`en = none`; given by the user, or a plain member of a `data.Const`)
-             or a member of an `enum.Enum` class (`en = some id`; not an `int` for `isinstance`); its value is
-             the `w`-bit pattern `v`, negative when `signed` and the top bit is set;
+             or a member of an enum class `en = some id`; `py` = `isinstance(x, int)` (false for `enum.Enum`
+             members, true for ints and `IntEnum` members); its value is the `w`-bit pattern `v`, negative when
+             `signed` and the top bit is set;
 * `enumv`  – an `EnumView` (a `Signal` or view member shaped by an `enum.Enum` class): ValueCastable, its shape
              is the class;
 * `const`  – a `data.Const` over a Struct/Array/Union layout, as the tree of its members (ints, enum members,
@@ -39,7 +40,7 @@ abbrev Path := List Key
 mutual
 inductive Layout
   | leaf (w : Nat) (signed : Bool)
-  | enum (w : Nat) (id : Nat)        -- an `amaranth.lib.enum.Enum` class `id` with `shape=w` (an IntEnum is a plain `leaf`)
+  | enum (w : Nat) (id : Nat) (intEnum : Bool)   -- an `amaranth.lib.enum.Enum` / `IntEnum` class `id` with `shape=w`
   | struct (fs : LFields)
   | array (e : Layout) (n : Nat)
   | union (fs : LFields)
@@ -51,7 +52,7 @@ end
 mutual
 def Layout.size : Layout → Nat
   | .leaf w _ => w
-  | .enum w _ => w
+  | .enum w _ _ => w
   | .struct fs => fs.sum
   | .array e n => n * e.size
   | .union fs => fs.max
@@ -71,7 +72,7 @@ deriving Repr, DecidableEq
 mutual
 inductive Obj
   | val (store off w : Nat) (signed explicit : Bool)
-  | int (v w : Nat) (signed : Bool) (en : Option Nat)
+  | int (v w : Nat) (signed : Bool) (en : Option Nat) (py : Bool)
   | enumv (store off w id : Nat)
   | view (kind : VKind) (store off size : Nat) (ms : Members)
   | const (kind : VKind) (size value : Nat) (flds : List (Key × Nat × Bool × Nat)) (ms : Members)
@@ -108,7 +109,9 @@ def arrayMembers (mk : Nat → Obj) (esz : Nat) : Nat → Nat → Nat → Member
 mutual
 def ofLayout : Layout → (store off : Nat) → (root : Bool) → Obj
   | .leaf w s, store, off, root => fieldObj store off root w s
-  | .enum w id, store, off, _ => .enumv store off w id
+  | .enum w id ie, store, off, root =>
+    -- a member shaped by an IntEnum is a plain unsigned slice, `Signal(IntEnum)` a plain signal
+    if ie then fieldObj store off root w false else .enumv store off w id
   | .struct fs, store, off, _ => .view .struct store off fs.sum (ofStruct fs store off)
   | .array e n, store, off, _ =>
     .view .array store off (n * e.size) (arrayMembers (fun o => ofLayout e store o false) e.size n 0 off)
@@ -140,8 +143,8 @@ mutual
 /-- `layout.const(…)` whose bits are `v` (bits above the size are ignored): what `Const.__getitem__` returns for
     a member - a Python int for plain shapes, the enum member for Enum shapes, a `Const` for layouts -/
 def ofConst : Layout → (v : Nat) → Obj
-  | .leaf w s, v => .int (v % 2 ^ w) w s none
-  | .enum w id, v => .int (v % 2 ^ w) w false (some id)
+  | .leaf w s, v => .int (v % 2 ^ w) w s none true
+  | .enum w id ie, v => .int (v % 2 ^ w) w false (some id) ie
   | .struct fs, v => .const .struct fs.sum (v % 2 ^ fs.sum) (fs.flds false 0) (constStruct fs v)
   | .array e n, v =>
     .const .array (n * e.size) (v % 2 ^ (n * e.size))
@@ -315,7 +318,7 @@ def isValueLike : Obj → Bool
   | _ => true
 
 def isInt : Obj → Bool
-  | .int _ _ _ en => en.isNone            -- an Enum member is not an `int` (an IntEnum member is; it is modelled as one)
+  | .int _ _ _ _ py => py                 -- an `enum.Enum` member is not an `int`, an `IntEnum` member is
   | _ => false
 
 /-- `isinstance(x, ValueCastable)`: a `data.View`, and (Amaranth 0.5) every `ArrayProxy` -/
@@ -331,7 +334,7 @@ def explicit (c : Option PCtx) : Obj → Bool
   | .view _ _ _ _ _ => true
   | .enumv _ _ _ _ => true
   | .const _ _ _ _ _ => true
-  | .int _ _ _ _ => false
+  | .int _ _ _ _ _ => false
   | _ => c.isSome
 
 def Obj.members : Obj → Members
@@ -357,7 +360,7 @@ def Members.fieldList (base : Nat) : Members → List (Key × Nat × Bool × Nat
 inductive ShapeD
   | flat (w : Nat) (signed : Bool)
   | layout (size : Nat) (fields : List (Key × Nat × Bool × Nat))
-  | enum (id : Nat)
+  | enum (w id : Nat)             -- an enum class is identified by its number and its width
 deriving Repr, DecidableEq
 
 def bitsFor (v : Nat) : Nat := if v = 0 then 1 else Nat.log2 v + 1
@@ -365,13 +368,13 @@ def bitsFor (v : Nat) : Nat := if v = 0 then 1 else Nat.log2 v + 1
 /-- `shape_of` (amaranth_ext/functions.py:144-153) -/
 def shapeOf (c : Option PCtx) : Obj → ShapeD
   | .val _ _ w s _ => .flat w s
-  | .int v w sg en =>
+  | .int v w sg en _ =>
     match en with
-    | some id => .enum id                                   -- `type(value)` (the "hack for enums")
+    | some id => .enum w id                                   -- `type(value)` (the "hack for enums")
     | none =>                                                -- `Const(value).shape()`: the minimal shape of the value
       if sg && v.testBit (w - 1) && 0 < w then .flat (bitsFor (2 ^ w - v - 1) + (if 2 ^ w - v - 1 = 0 then 0 else 1)) true
       else .flat (bitsFor v) false
-  | .enumv _ _ w id => if c.isSome then .flat w false else .enum id
+  | .enumv _ _ w id => if c.isSome then .flat w false else .enum w id
   | .const _ size _ flds _ => .layout size flds
   | .view _ _ off size ms => if c.isSome then .flat size false else .layout size (ms.fieldList off)
   | _ => .flat 0 false
@@ -380,7 +383,7 @@ def shapeOf (c : Option PCtx) : Obj → ShapeD
 def shapeEq : ShapeD → ShapeD → Bool
   | .flat w s, .flat w' s' => w == w' && s == s'
   | .layout z f, .layout z' f' => z == z' && f.length == f'.length && f.all (· ∈ f')
-  | .enum i, .enum i' => i == i'
+  | .enum w i, .enum w' i' => w == w' && i == i'
   | _, _ => false
 
 /-- the loops at assign.py:203-210: descend through single-member structures -/
@@ -412,7 +415,7 @@ def unwrap (c : Option PCtx) : Obj → Except Err (Obj × Path)
 def srcOf (c : Option PCtx) : Obj → Src
   | .val st off w s _ => .bits c st off w s
   | .view _ st off size _ => .bits c st off size false
-  | .int v w sg _ => .const v w sg
+  | .int v w sg _ _ => .const v w sg
   | .enumv st off w _ => .bits c st off w false
   | .const _ size value _ _ => .const value size false
   | _ => .const 0 0 false
@@ -424,6 +427,10 @@ def flowOf (lc : Option PCtx) (l : Obj) (rc : Option PCtx) (r : Obj) : Flow :=
   | .enumv st off w _ => ⟨lc, st, off, w, srcOf rc r⟩
   | _ => ⟨lc, 0, 0, 0, srcOf rc r⟩
 
+/-- strictness after the unwrapping loops (assign.py:204-213): unchanged without a step, otherwise what the last
+    step sets, `isinstance(x, ValueLike) and not isinstance(field, int)` with `x` value-like -/
+def strictAfter (s : Bool) (p : Path) (o : Obj) : Bool := if p.isEmpty then s else !isInt o
+
 /-- the `else` branch (assign.py:190-223) for already stripped operands -/
 def assignLeaf (lc : Option PCtx) (lhs : Obj) (rc : Option PCtx) (rhs : Obj) (sel : Sel) (ls rs : Bool)
     (lp rp : Path) : Except Err (List Pair) :=
@@ -434,9 +441,10 @@ def assignLeaf (lc : Option PCtx) (lhs : Obj) (rc : Option PCtx) (rhs : Obj) (se
     | .error e, _ => .error e
     | _, .error e => .error e
     | .ok (l, ul), .ok (r, ur) =>
-      -- the loops set `lhs_strict` / `rhs_strict = isinstance(·, ValueLike)` (true here) on every step (744698a)
-      let ls := ls || !ul.isEmpty
-      let rs := rs || !ur.isEmpty
+      -- every step of the loops sets `x_strict = isinstance(x, ValueLike) and not isinstance(field, int)` as `rec_call`
+      -- does (744698a, d1cbe8d); `x` is value-like here, and the last step decides
+      let ls := strictAfter ls ul l
+      let rs := strictAfter rs ur r
       let check := isVC lc l || isVC rc r || ((ls || explicit lc l) && (rs || explicit rc r))
       if check && !shapeEq (shapeOf lc l) (shapeOf rc r) then throw .valueError
       else pure [⟨lp ++ ul, rp ++ ur, check, flowOf lc l rc r⟩]
@@ -495,10 +503,10 @@ def assignObj (lhs : Obj) (lc : Option PCtx) (rc : Option PCtx) (rhs : Obj) (sel
     | .error e => .error e
     | .ok .leaf => assignLeaf lc (.val st off w sg e) (strip rc rhs).1 (strip rc rhs).2 sel ls rs lp rp
     | .ok (.descend _) => throw .keyError        -- unreachable: a value has no members
-  | .int v w sg en =>
-    match plan lc (.int v w sg en) (strip rc rhs).1 (strip rc rhs).2 sel with
+  | .int v w sg en py =>
+    match plan lc (.int v w sg en py) (strip rc rhs).1 (strip rc rhs).2 sel with
     | .error e => .error e
-    | .ok .leaf => assignLeaf lc (.int v w sg en) (strip rc rhs).1 (strip rc rhs).2 sel ls rs lp rp
+    | .ok .leaf => assignLeaf lc (.int v w sg en py) (strip rc rhs).1 (strip rc rhs).2 sel ls rs lp rp
     | .ok (.descend _) => throw .keyError
   | .enumv st off w id =>
     match plan lc (.enumv st off w id) (strip rc rhs).1 (strip rc rhs).2 sel with
